@@ -403,6 +403,7 @@ class ExprMixin:
         """Cheap in-process check that the path condition implies `fact` (unknown -> False)."""
         sol = z3.Solver()
         sol.set("timeout", 200)
+        sol.set("rlimit", 300000)
         for p in st.pc:
             if not z3.is_quantifier(p):
                 sol.add(p)
